@@ -8,6 +8,9 @@ import (
 	"verif/internal/ref65816"
 )
 
+// cpuSampled holds a few cases actually enumerated by the last cpuEnumerate calls (for evidence samples).
+var cpuSampled []string
+
 type cpuSweep struct {
 	name string
 	base cpuCase
@@ -228,7 +231,18 @@ func cpuEnumerate(o cpuSweepOpts, opsFilter func(op byte) bool, f func(x *cpuCtx
 		j := jobs[i]
 		base := j.sw.base
 		base.Sweep = j.sw.name
-		n := product(j.sw.dims, base, func(c *cpuCase) { f(x, c) })
+		first := true
+		n := product(j.sw.dims, base, func(c *cpuCase) {
+			if first && i%61 == 7 {
+				mu.Lock()
+				if len(cpuSampled) < 64 {
+					cpuSampled = append(cpuSampled, c.Sweep+": "+c.String())
+				}
+				mu.Unlock()
+			}
+			first = false
+			f(x, c)
+		})
 		mu.Lock()
 		p := counts[j.sw.name]
 		if p == nil {
